@@ -5,8 +5,8 @@ import os, sys, json, time, hashlib
 from . import findings as F
 
 VERIF = os.path.dirname(os.path.dirname(os.path.dirname(os.path.abspath(__file__))))
-EVID = os.path.join(VERIF, "evidence")
-REPLAY = os.path.join(VERIF, "out", "replay")
+EVID = os.environ.get("VERIF_EVID") or os.path.join(VERIF, "evidence")
+REPLAY = os.path.join(os.environ.get("VERIF_OUT") or os.path.join(VERIF, "out"), "replay")
 
 
 def jsonable(o):
